@@ -331,3 +331,90 @@ pub mod verif_hooks_cg {
         (trace, verif_hooks::dump_tree(&t))
     }
 }
+
+// verification hooks (add-only): the cone-count accessors of `ChordalInfo` and the private
+// helpers of `decomp/*` on plain data.  Re-exported as `clarabel::verif_hooks::chordal_decomp`.
+#[cfg(feature = "verif-hooks")]
+#[allow(non_snake_case)]
+#[allow(missing_docs)]
+pub mod verif_hooks_decomp {
+    use super::verif_hooks::{load_tree, Info, TreeDump};
+    use super::*;
+    use crate::algebra::*;
+    use crate::solver::SupportedConeT;
+    use std::ops::Range;
+
+    impl Info {
+        pub fn init_cone_count(&self) -> usize {
+            self.0.init_cone_count()
+        }
+        pub fn init_psd_cone_count(&self) -> usize {
+            self.0.init_psd_cone_count()
+        }
+        pub fn final_cone_count(&self) -> usize {
+            self.0.final_cone_count()
+        }
+        pub fn final_psd_cone_count(&self) -> usize {
+            self.0.final_psd_cone_count()
+        }
+        pub fn premerge_psd_cone_count(&self) -> usize {
+            self.0.premerge_psd_cone_count()
+        }
+        pub fn decomposable_cone_count(&self) -> usize {
+            self.0.decomposable_cone_count()
+        }
+        pub fn final_psd_cones_added(&self) -> usize {
+            self.0.final_psd_cones_added()
+        }
+        pub fn premerge_psd_cones_added(&self) -> usize {
+            self.0.premerge_psd_cones_added()
+        }
+        pub fn largest_nblk(&self) -> usize {
+            self.0.vh_largest_nblk()
+        }
+        pub fn find_A_dimension(&self, A: &CscMatrix<f64>) -> (usize, usize, usize) {
+            self.0.vh_find_A_dimension(A)
+        }
+        pub fn find_H_col_dimension(&self) -> usize {
+            self.0.vh_find_H_col_dimension()
+        }
+    }
+
+    pub fn alternating_sequence(total_length: usize, n_start: usize) -> Vec<f64> {
+        ChordalInfo::<f64>::vh_alternating_sequence(total_length, n_start)
+    }
+    pub fn extra_columns(total_length: usize, n_start: usize, start_val: usize) -> Vec<usize> {
+        ChordalInfo::<f64>::vh_extra_columns(total_length, n_start, start_val)
+    }
+    pub fn get_rows_mat(A: &CscMatrix<f64>, col: usize, row_range: Range<usize>) -> Option<Range<usize>> {
+        ChordalInfo::<f64>::vh_get_rows_mat(A, col, row_range)
+    }
+    pub fn get_rows_vec(b: &[f64], row_range: Range<usize>) -> Option<Range<usize>> {
+        ChordalInfo::<f64>::vh_get_rows_vec(b, row_range)
+    }
+    pub fn get_clique_by_index(d: &TreeDump, i: usize) -> Vec<usize> {
+        ChordalInfo::<f64>::vh_get_clique_by_index(&load_tree(d), i)
+    }
+    pub fn decompose_with_cone(
+        H_I: &mut Vec<usize>,
+        cones_new: &mut Vec<SupportedConeT<f64>>,
+        cone: &SupportedConeT<f64>,
+        row: usize,
+    ) {
+        ChordalInfo::<f64>::vh_decompose_with_cone(H_I, cones_new, cone, row)
+    }
+    pub fn add_blocks_with_cone(
+        new_s: &mut [f64],
+        old_s: &[f64],
+        new_z: &mut [f64],
+        old_z: &[f64],
+        row_range: Range<usize>,
+        cone: &SupportedConeT<f64>,
+        row_ptr: usize,
+    ) -> usize {
+        ChordalInfo::<f64>::vh_add_blocks_with_cone(new_s, old_s, new_z, old_z, row_range, cone, row_ptr)
+    }
+    pub fn number_of_overlaps_in_rows(A: &CscMatrix<f64>) -> (Vec<usize>, Vec<f64>) {
+        ChordalInfo::<f64>::vh_number_of_overlaps_in_rows(A)
+    }
+}
